@@ -865,6 +865,7 @@ def build_item(cur, log):
             if toks[lk].text != "for": continue
             a1 = next_code(toks, lk)
             if toks[a1].text == "&" and "R1" in rules: continue
+            if toks[a1].text == "(" and "R5" in rules and toks[next_code(toks, a1)].text != "&": continue   # handled by R5
             a2 = next_code(toks, match_forward(toks, a1)) if toks[a1].text == "(" else next_code(toks, a1)
             if toks[a2].text != "in": continue
             last = prev_code(toks, lo_)
